@@ -36,6 +36,14 @@ CHECKS["C12"] = ("reqs", "model_checking",
    "bounded exhaustive exploration of request sequences against the real main_loop: every message of a parameter alphabet (all handled methods, unknown methods, malformed params; URIs inside/outside the library; positions incl. out of range; rename names; code-action kinds and resolve data incl. stale ids) singly and in all ordered pairs (thorough: full pairs and triples with an edit in between); after each request the worker thread is joined and exactly one response with its id must exist, a liveness probe must answer like a fresh server, shutdown/exit must end the loop with Ok",
    "no-response is decided by thread join (JoinHandle from the hooks), never by timeout; parameters are from the stated alphabet only",
    "explicit-state enumeration of operation sequences (depth <= 2..3) on the implementation", "§5 C12")
+CHECKS["C05"] = ("libspace", "model_checking",
+   "bounded exhaustive exploration of libraries: every library derivable from a link-placement x link-kind x url-form alphabet (4 notes in root and a sub-directory, one or two link blocks, several styles of the other notes) is imported by the real code; for every note and every missing name the backlink set reported by the graph API, textDocument/references and the inlay-hint counters must equal the set computed by an independent link scanner and path resolver",
+   "trusted: pulldown-cmark offset iterator + own resolver; order of locations not compared",
+   "explicit-state enumeration of the configuration space against the implementation with a reference-model oracle", "§5 C05")
+CHECKS["C06"] = ("libspace", "model_checking",
+   "the same library space as C05 under both refs_extension settings, formatted by import/export and by the LSP formatting request; input and output links are matched by ordinal with the independent scanner: kind and resolved destination must be unchanged and the text must follow the title-refresh rule for the note the link really resolves to",
+   "trusted: as C05; titles that contain links may be compared against their old or new plain text",
+   "explicit-state enumeration of the configuration space against the implementation with a reference-model oracle", "§5 C06")
 NOT_APPLICABLE = {}
 manifest = {
  "version": 1,
@@ -51,6 +59,7 @@ manifest = {
    {"name": "histspace", "path": "/verif/mc/src/engines/hist.rs", "serves_properties": ["C04","C20"], "kind_free_text": "enumerates all update/insert histories up to a depth and runs them on the real Database / Server"},
    {"name": "sched", "path": "/verif/mc/src/engines/sched.rs", "serves_properties": ["C11"], "kind_free_text": "hook-driven cooperative scheduler exploring all interleavings of the real LSP message loop and request workers"},
    {"name": "reqs", "path": "/verif/mc/src/engines/reqs.rs", "serves_properties": ["C12"], "kind_free_text": "drives every request of a parameter alphabet, singly and in sequences, through the real main_loop over an in-memory connection"},
+   {"name": "libspace", "path": "/verif/mc/src/libspace.rs + engines/links.rs", "serves_properties": ["C05","C06"], "kind_free_text": "enumerates small libraries from a link-placement x kind x url-form alphabet and compares the real answers with an independent link scanner/resolver"},
    {"name": "docspace", "path": "/verif/mc/src/engines/docs.rs", "serves_properties": ["C01","C02","C03","C07"], "kind_free_text": "enumerates documents from a token alphabet / block grammar / inline grammar and runs the real formatter and server on each"},
  ],
  "checks": [],
